@@ -1144,3 +1144,65 @@ Proof.
   pose proof (size_accepted_sources c ops Hh Hf (uncut_clean ops Hu)) as H.
   destruct (run c (uw0, rec0) ops) as [[u r] p]. apply H.
 Qed.
+
+(* ------------------------------------------------------------------------------------------ *)
+(* G. on a net/http connection at most ONE call loses bytes                                     *)
+(* ------------------------------------------------------------------------------------------ *)
+(* the first failed write to the connection makes every later Write fail with 0 bytes, so the
+   bytes missing from {size} are those of a single call: all of one Write at worst, less than one
+   chunk of a copy *)
+Definition lost_inv (B : N) (u : uw) : Prop :=
+  if u_dead u then u_lost u <= B else u_lost u = 0.
+
+Lemma lost_inv_wh B u code : lost_inv B u -> lost_inv B (uw_wh u code).
+Proof. unfold lost_inv, uw_wh. destruct (u_status u); cbn; auto. Qed.
+
+Lemma step_lost_inv c B u r o :
+  w_nethttp c = true -> cut_within o = true -> op_loss_bound o <= B ->
+  lost_inv B u -> lost_inv B (fst (step c (u, r) o)).
+Proof.
+  intros Hn Hc Hb Hi. destruct o as [code|k len se cut|]; [apply lost_inv_wh; exact Hi| |exact Hi].
+  pose proof (lost_inv_wh B u 200%Z Hi) as H1.
+  destruct k; cbn [step].
+  - unfold uw_write, uw_mode.
+    destruct (w_nethttp c && body_forbidden (client_status (uw_wh u 200))); cbn [N.eqb Pos.eqb]; [exact H1|].
+    destruct (w_nethttp c && w_head c); cbn [N.eqb Pos.eqb]; [exact H1|].
+    destruct (u_dead (uw_wh u 200)) eqn:Ed; cbn [N.eqb Pos.eqb]; [exact H1|].
+    unfold lost_inv in H1. rewrite Ed in H1.
+    destruct cut as [j|]; cbn; unfold lost_inv; cbn; rewrite Ed, ?Hn; cbn.
+    + cbn in Hc, Hb. apply N.ltb_lt in Hc. lia.
+    + lia.
+  - destruct (len =? 0); [exact Hi|].
+    unfold uw_copy, uw_mode.
+    destruct (w_nethttp c && body_forbidden (client_status (uw_wh u 200))); cbn [N.eqb Pos.eqb]; [exact H1|].
+    destruct (w_nethttp c && w_head c); cbn [N.eqb Pos.eqb]; [exact H1|].
+    destruct (u_dead (uw_wh u 200)) eqn:Ed; cbn [N.eqb Pos.eqb]; [exact H1|].
+    unfold lost_inv in H1. rewrite Ed in H1.
+    destruct cut as [j|]; cbn; unfold lost_inv; cbn; rewrite Ed, ?Hn; cbn.
+    + cbn in Hc, Hb. apply N.ltb_lt in Hc. fold copy_chunk.
+      pose proof (N.mod_le j copy_chunk ltac:(discriminate)).
+      pose proof (N.mod_lt j copy_chunk ltac:(discriminate)). lia.
+    + lia.
+Qed.
+
+Lemma run_lost_inv c B : forall ops u r,
+  w_nethttp c = true -> cuts_within ops = true -> max_loss ops <= B ->
+  lost_inv B u -> lost_inv B (fst (fst (run c (u, r) ops))).
+Proof.
+  induction ops as [|o ops IH]; intros u r Hn Hc Hb Hi; [exact Hi|].
+  simpl in Hc. apply andb_true_iff in Hc as [Ho Hc]. cbn [max_loss] in Hb.
+  pose proof (step_lost_inv c B u r o Hn Ho ltac:(lia) Hi) as H1.
+  destruct (step c (u, r) o) as [u1 r1] eqn:Es. cbn [fst] in H1.
+  destruct o as [code|k len se cut|]; cbn [run]; [rewrite Es; apply IH; auto; lia|rewrite Es; apply IH; auto; lia|exact Hi].
+Qed.
+
+Lemma abort_loses_one_call c ops :
+  w_nethttp c = true -> cuts_within ops = true ->
+  let '((u, r), _) := run c (uw0, rec0) ops return Prop in
+  u_lost u <= max_loss ops /\ (u_dead u = false -> u_lost u = 0).
+Proof.
+  intros Hn Hc.
+  pose proof (run_lost_inv c (max_loss ops) ops uw0 rec0 Hn Hc (N.le_refl _) eq_refl) as H.
+  destruct (run c (uw0, rec0) ops) as [[u r] p]. cbn [fst] in H. unfold lost_inv in H.
+  destruct (u_dead u); [split; [exact H|discriminate]|split; [lia|auto]].
+Qed.
